@@ -24,7 +24,7 @@ type ShapeOpts struct {
 
 // DefaultShape is the swarm default.
 var DefaultShape = ShapeOpts{MaxAlt: 2, MaxEmbed: 2, MaxAttach: 2, MaxContent: 400, CRLFOnly: true,
-	Encs: []string{"quoted-printable", "base64", "8bit"}, FileEncs: []string{"", "base64"}, Sources: []string{"writer", "readseeker", "fs", "reader", "file", "tmpl"}}
+	Encs: []string{"quoted-printable", "base64", "8bit"}, FileEncs: []string{"", "base64"}, Sources: []string{"writer", "readseeker", "fs", "reader", "file", "tmpl", "htmpl"}}
 
 var words = []string{"alpha", "beta", "gamma", "delta", "Ünïcödé", "ζήτα", "=equals=", ".dot", "..dots", "From ", "--boundary", "line", "x", "a-very-long-word-without-any-blank-in-it-that-exceeds-the-usual-line-length-limit-of-76-characters-by-far"}
 
@@ -171,6 +171,10 @@ func GenMsg(r *sim.Rand, token string, o ShapeOpts) MsgSpec {
 		}
 		if r.Chance(1, 3) {
 			p.Kind = "string"
+			if len(p.Content.Data)%3 == 2 {
+				// the body comes out of a template that is executed when the part is set
+				p.Kind = "tmpl"
+			}
 		}
 		m.Parts = append(m.Parts, p)
 	}
@@ -242,6 +246,27 @@ func Pick2(r *sim.Rand, a, b string) string {
 	return b
 }
 
+// statShape counts which content sources a scenario's message used (reach probes).
+func (o *Outcome) statShape(s MsgSpec) {
+	for _, p := range s.Parts {
+		k := p.Kind
+		if k == "" {
+			k = "writer"
+		}
+		if k == "tmpl" {
+			k = "tmpl-" + strings.TrimPrefix(p.Type, "text/")
+		}
+		o.stat("probe.part-kind."+k, 1)
+	}
+	for _, f := range append(append([]FileSpec(nil), s.Embeds...), s.Attach...) {
+		k := f.Source
+		if k == "" {
+			k = "writer"
+		}
+		o.stat("probe.file-source."+k, 1)
+	}
+}
+
 // producersOf lists (kind, index) of all producer-backed contents in spec order (parts, embeds,
 // attachments), matching Built.Producers.
 func (s MsgSpec) producerCount() int { return len(s.Parts) + len(s.Embeds) + len(s.Attach) }
@@ -262,14 +287,14 @@ func (s *MsgSpec) contentAt(i int) *ContentSpec {
 // canFail reports whether the i-th producer's failure behaviour can take effect at render time.
 func (s *MsgSpec) canFail(i int) bool {
 	if i < len(s.Parts) {
-		return s.Parts[i].Kind != "string"
+		return s.Parts[i].Kind != "string" && s.Parts[i].Kind != "tmpl"
 	}
 	i -= len(s.Parts)
 	if i < len(s.Embeds) {
-		return s.Embeds[i].Source != "reader" && s.Embeds[i].Source != "file" && s.Embeds[i].Source != "tmpl"
+		return s.Embeds[i].Source != "reader" && s.Embeds[i].Source != "file" && s.Embeds[i].Source != "tmpl" && s.Embeds[i].Source != "htmpl"
 	}
 	i -= len(s.Embeds)
-	return s.Attach[i].Source != "reader" && s.Attach[i].Source != "file" && s.Attach[i].Source != "tmpl"
+	return s.Attach[i].Source != "reader" && s.Attach[i].Source != "file" && s.Attach[i].Source != "tmpl" && s.Attach[i].Source != "htmpl"
 }
 
 // canFailOpen: the source of producer i is opened again at render time (and can have vanished).
